@@ -133,4 +133,7 @@ def run(chk):
     fids = [f for f in prog.reachable(["sort::sort"]) if prog.bodies[f].file == "a2lfile/src/sort.rs"]
     diag.compare(chk, "R14-table", "sort", sortrules.sort_table(prog, fids), "uid/offset assignments and (sort) calls reachable from sort::sort with their control predicates, compared with the reviewed table", floor=20,
                  fn_filter=lambda fn: fn in {re.sub(r"\{closure#\d+\}", "{closure}", mir.strip_generics(f)) for f in fids} or fn.split("::{closure}")[0] in {mir.strip_generics(f) for f in fids})
+    # the keys by which sort() orders (USER_RIGHTS by user_level_id, named elements by name): semantic decision tables of its comparators
+    from . import cmpsem
+    cmpsem.compare(chk, "R14-cmp", select=lambda n: n.startswith("sort::sort"), floor=2)
     chk.assumptions += ["std's slice::sort_by is a stable permutation", "not decided: reload order and second-sort idempotence (runtime)"]
